@@ -14,6 +14,7 @@ DEFAULT_INVARIANTS = ["RetRefines", "InspConsistent", "CursorInBounds", "ResultC
 ALL_ETYS = ["rich", "simple", "cheap", "empty"]
 INV_SPANS = DEFAULT_INVARIANTS + ["SpansWellFormed"]
 ALL_KINDS = ["str", "slice", "array", "stream", "bstream", "mapped", "mstream", "wctx", "mapspan", "io", "bytes"]
+# &Graphemes: tokens are grapheme clusters (G = e + combining acute, U = a two-code-point flag), spans byte offsets
 # left-recursive grammars have no PEG denotation (the reference would not terminate): machine-only invariants
 NO_DEN = ["InspConsistent", "CursorInBounds", "NoPanic", "StepBound"]
 
@@ -89,12 +90,14 @@ PLANS = {
         "quick": [ex("peg2k", "peg", 2, 2, kinds=ALL_KINDS, modes=["E"]), ex("rep2k", "rep", 2, 3, alphabet=["a", ","], kinds=["stream", "mapped", "io"], modes=["E"]),
                   ex("rcv2k", "rcv", 2, 3, kinds=["bstream", "mstream", "wctx"], modes=["E"]),
                   ex("seek4", "seek", 4, 4, kinds=["io", "bstream", "mstream"], modes=["E"]),
+                  ex("spn2g", "spn", 2, 3, alphabet=["a", "G", "U"], kinds=["graph", "str"], modes=["E"]),
                   ex("spng3k", "spng", 3, 3, kinds=["mapped", "mstream", "wctx", "mapspan"], modes=["E"]),
                   ex("gapTk", "gapT", 1, 3, kinds=["mapped", "mstream", "stream", "wctx", "mapspan", "io", "slice"], modes=["E"]),
                   rec("pegRk", "peg", 2500, 8, 8, kinds=ALL_KINDS), rec("spngRk", "spng", 1500, 8, 8, kinds=["mapped", "mstream", "stream", "wctx", "mapspan", "io"])],
         "thorough": [ex("peg2k", "peg", 2, 3, kinds=ALL_KINDS), ex("rep2k", "rep", 2, 4, alphabet=["a", ","], kinds=ALL_KINDS, modes=["E"]),
                      ex("rcv3k", "rcv", 3, 3, kinds=["bstream", "mstream", "wctx", "io"], modes=["E"]),
                      ex("seek5", "seek", 5, 4, kinds=["io", "bstream", "mstream", "stream", "mapped"], modes=["E"]),
+                     ex("spn3g", "spn", 3, 3, alphabet=["a", "G", "U", "E"], kinds=["graph", "str"]),
                      ex("spng4k", "spng", 4, 3, kinds=["mapped", "mstream", "wctx", "mapspan"], modes=["E"]),
                      ex("gapTk", "gapT", 1, 4, kinds=ALL_KINDS),
                      rec("pegRk", "peg", 30000, 10, 10, kinds=ALL_KINDS), rec("spngRk", "spng", 20000, 10, 10, kinds=["mapped", "mstream", "stream", "wctx", "mapspan", "io"])],
